@@ -165,4 +165,337 @@ def programs(tier):
             println(CallV(Var("f"))),
         ], Unit))
         out.append({"prog": p, "family": "c03", "ident": f"c03:captured-only-as:{pname}"})
+    out += self_programs(tier)
+    out += [c for c in names_cases(tier) if c.get("runnable")]
+    return out
+
+
+# ================================================================ `Self` under every type former in impl method headers
+# An impl method may write `Self` anywhere in its parameter and result types.  The header of the method is rewritten with
+# the impl's for-type in several places of the compiler (scheme seen by callers, types the body is checked against, the
+# header written into the typed AST that Core/Mono/Lift/ANF/Go are derived from); all of them must replace `Self` below
+# every type former.  For each self kind (inherent impl on a struct / an enum / a generic struct, trait impl on a struct /
+# on int32) and each path of type formers F1.F2.. the family has two methods
+#     fn mk_<path>(self: Self) -> F1[F2[Self]]             -- Self in result position
+#     fn tk_<path>(self: Self, x: F1[F2[Self]]) -> int32   -- Self in parameter position
+# whose bodies build / take apart the value with the formers' own constructors and eliminators (written with the
+# concrete type, so that only the headers mention Self), and main calls tk(mk(a)).
+SELF = TAdt("Self")
+
+
+def _f(name, ty, cons, elim):
+    return {"name": name, "ty": ty, "cons": cons, "elim": elim}
+
+
+# cons(e, t, d): an expression of type F[t] from e : t;  elim(x, t, dflt, d): an expression of type t from x : F[t]
+# (dflt : t is used where the eliminator needs a value of the inner type); d = nesting depth, keeps bound names apart
+FORMERS = [
+    _f("vec", TVec, lambda e, t, d: Call("vec_push", Call("vec_new"), e), lambda x, t, dflt, d: Call("vec_get", x, Int(0))),
+    _f("ref", TRef, lambda e, t, d: Call("ref", e), lambda x, t, dflt, d: Call("ref_get", x)),
+    _f("tuple", lambda t: TTuple(t, INT32), lambda e, t, d: Tuple(e, Int(1)), lambda x, t, dflt, d: Proj(x, 0)),
+    _f("array", lambda t: TArray(2, t), lambda e, t, d: Array(e, e), lambda x, t, dflt, d: Call("array_get", x, Int(1))),
+    _f("fnres", lambda t: TFn([], t), lambda e, t, d: Lam([], e), lambda x, t, dflt, d: CallV(x)),
+    _f("fnarg", lambda t: TFn([t], t), lambda e, t, d: Lam([(f"q{d}", t)], e), lambda x, t, dflt, d: CallV(x, dflt)),
+    _f("opt", lambda t: TAdt("Opt", t), lambda e, t, d: Ctor(TAdt("Opt", t), "Some_", e),
+       lambda x, t, dflt, d: Match(x, [(PCtor("None_"), dflt), (PCtor("Some_", PVar(f"v{d}")), Var(f"v{d}"))])),
+    _f("box", lambda t: TAdt("Box", t), lambda e, t, d: Struct(TAdt("Box", t), [("v", e)]), lambda x, t, dflt, d: Field(x, "v")),
+]
+
+
+def path_ty(path, base):
+    t = base
+    for f in reversed(path):
+        t = f["ty"](t)
+    return t
+
+
+def path_cons(path, e, base, d0=0):
+    for i in reversed(range(len(path))):
+        e = path[i]["cons"](e, path_ty(path[i + 1:], base), d0 + i)
+    return e
+
+
+def path_elim(path, x, selfexpr, base):
+    """statements taking x : F1[F2[..base]] apart one former at a time, each intermediate result bound by an annotated let
+    (goml's inference wants the type of the operand of a projection / field read to be known at that point), and the
+    expression of type base they end in"""
+    stmts = []
+    for i, f in enumerate(path):
+        inner = path[i + 1:]
+        stmts.append(Let(f"e{i}", f["elim"](x, path_ty(inner, base), path_cons(inner, selfexpr, base, d0=i + 1), i), ty=path_ty(inner, base)))
+        x = Var(f"e{i}")
+    return stmts, x
+
+
+SELF_KINDS = ["inherent-struct", "inherent-enum", "inherent-generic-struct", "trait-struct", "trait-int32"]
+
+
+# A lambda that flows into a position declared with a function type is emitted as its closure_env_* struct (known open
+# defect of goml: C02-closure-value-where-func-type-expected / C03-closure-environment-struct-..), so the paths through the
+# two function formers are kept out of the families shared with C01 / C02 and are generated for C03 only
+# (self_programs_c03_only, used by c03.py).
+FN_FORMERS = [f for f in FORMERS if f["name"] in ("fnres", "fnarg")]
+DATA_FORMERS = [f for f in FORMERS if f["name"] not in ("fnres", "fnarg")]
+
+
+def self_paths(tier, kind_index):
+    fs = DATA_FORMERS
+    one = [[f] for f in fs]
+    n = len(fs)
+    if tier == "quick":
+        # every former once outside and once inside; which pairs depends on the kind so that the kinds together cover more
+        two = [[fs[i], fs[(i + 1 + kind_index) % n]] for i in range(n)]
+        three = []
+    else:
+        two = [[a, b] for a in fs for b in fs]
+        three = [[fs[i], fs[(i + 2 + kind_index) % n], fs[(i + 3 + 2 * kind_index) % n]] for i in range(n)]
+    return {"depth1": [[]] + one, "depth2": two, "depth3": three}
+
+
+def self_fn_paths(tier, kind_index):
+    """paths with at least one function type in them"""
+    n = len(FORMERS)
+    out = [[f] for f in FN_FORMERS]
+    if tier == "quick":
+        for i in range(n):
+            out.append([FORMERS[i], FN_FORMERS[(i + kind_index) % 2]])
+            out.append([FN_FORMERS[(i + kind_index + 1) % 2], FORMERS[(i + kind_index) % n]])
+    else:
+        out += [[a, b] for a in FORMERS for b in FORMERS if a in FN_FORMERS or b in FN_FORMERS]
+        out += [[FORMERS[i], FN_FORMERS[(i + kind_index) % 2], FORMERS[(i + 3 + kind_index) % n]] for i in range(n)]
+        out += [[FN_FORMERS[(i + kind_index) % 2], FORMERS[i], FN_FORMERS[(i + kind_index + 1) % 2]] for i in range(n)]
+    seen, uniq = set(), []
+    for pa in out:
+        k = tuple(f["name"] for f in pa)
+        if k not in seen:
+            seen.add(k); uniq.append(pa)
+    return uniq
+
+
+def self_program(kind, group, paths, single=False):
+    """one program with the mk_/tk_ methods of every path in `paths`; single: the program is about one path, named by group"""
+    p = Program("c03_self_" + kind.replace("-", "_") + "_" + group.replace("-", "_").replace(".", "_"))
+    decls(p)
+    p.struct("Node", [("id", INT32)])
+    p.enum("Col", [("Red", []), ("Green", [INT32])])
+    p.struct("Wrap", [("n", INT32), ("v", TT)], gens=["T"])
+    gens, targs = [], []
+    if kind in ("inherent-struct", "trait-struct"):
+        conc = inst = TAdt("Node")
+        base = Struct(conc, [("id", Int(7))])
+        to_int = lambda e: Field(e, "id")
+    elif kind == "inherent-enum":
+        conc = inst = TAdt("Col")
+        base = Ctor(conc, "Green", Int(7))
+        to_int = lambda e: Match(e, [(PCtor("Red"), Int(0)), (PCtor("Green", PVar("g_")), Var("g_"))])
+    elif kind == "inherent-generic-struct":
+        conc, inst = TAdt("Wrap", TT), TAdt("Wrap", STRING)
+        gens, targs = ["T"], [STRING]
+        base = Struct(inst, [("n", Int(7)), ("v", Str("w"))])
+        to_int = lambda e: Field(e, "n")
+    else:
+        conc = inst = INT32
+        base = Int(7)
+        to_int = lambda e: e
+    methods, tmethods, stmts, fn_idents = [], [], [Let("a", base, ty=inst)], {}
+    trait = "Shape" if kind.startswith("trait") else None
+    for pa in paths:
+        label = ".".join(f["name"] for f in pa) or "whole"
+        mk, tk = "mk_" + label.replace(".", "_"), "tk_" + label.replace(".", "_")
+        fn_idents[mk] = ("" if single else label + ":") + "result"
+        fn_idents[tk] = ("" if single else label + ":") + "parameter"
+        sig_t, body_t = path_ty(pa, SELF), path_ty(pa, conc)
+        methods.append((mk, [("self", SELF)], sig_t, path_cons(pa, Var("self"), conc)))
+        est, last = path_elim(pa, Var("x"), Var("self"), conc)
+        methods.append((tk, [("self", SELF), ("x", sig_t)], INT32, Block(est, to_int(last)) if est else to_int(last)))
+        tmethods += [(mk, [], sig_t), (tk, [sig_t], INT32)]
+        w = "w_" + label.replace(".", "_")
+        if trait:
+            c1 = TCall(trait, mk, Var("a"))       # (goml has no method-call syntax for a trait method on a concrete receiver)
+            c2 = TCall(trait, tk, Var("a"), Var(w))
+        else:
+            key = "inherent#" + tykey(conc).lstrip("%") + "#"
+            c1 = Call(key + mk, Var("a"), targs=targs); c1["form"] = "method"
+            c2 = Call(key + tk, Var("a"), Var(w), targs=targs); c2["form"] = "method"
+        stmts += [Let(w, c1, ty=path_ty(pa, inst)), println(show_int(c2))]
+    if trait:
+        p.trait(trait, tmethods)
+    p.impl(trait, conc, methods, gens=gens)
+    p.fn("main", [], UNIT, Block(stmts, Unit))
+    return {"prog": p, "family": "c03", "ident": f"c03:self-under-type-former:{kind}:{group}", "fn_idents": fn_idents}
+
+
+def self_programs(tier):
+    out = []
+    for ki, kind in enumerate(SELF_KINDS):
+        groups = self_paths(tier, ki)
+        if tier == "quick":
+            for g in ("depth1", "depth2"):
+                out.append(self_program(kind, g, groups[g]))
+        else:
+            out.append(self_program(kind, "depth1", groups["depth1"]))
+            for f in DATA_FORMERS:
+                out.append(self_program(kind, "depth2-" + f["name"], [pa for pa in groups["depth2"] if pa[0] is f]))
+            out.append(self_program(kind, "depth3", groups["depth3"]))
+    return out
+
+
+def self_programs_c03_only(tier):
+    """one small program per path: a path on which a later stage of the compiler gives up does not hide the others"""
+    out = []
+    for ki, kind in enumerate(SELF_KINDS):
+        for pa in self_fn_paths(tier, ki):
+            out.append(self_program(kind, ".".join(f["name"] for f in pa), [pa], single=True))
+    return out
+
+
+# ================================================================ type-parameter NAMES of a generic struct reused by the function around it
+# `struct Duo[A, B] { first: A, second: B }` used inside `fn f[B, A](p: Duo[B, A])`, `fn f[B](p: Duo[B, int32])`, `fn f[T, A](p: Duo[A, T])`:
+# the function's own type parameters carry the names of the struct's parameters, in another order or only some of them,
+# and the struct is applied to them out of position.  Instantiating a field's declared type must substitute the struct's
+# parameters simultaneously (the arguments are types of the *function's* scope and are not substituted again).  For every
+# such (parameter list, argument list) each use of the struct's fields - read, struct pattern in match, struct pattern in
+# let, struct literal, read inside a generic impl - is generated once with the right result annotation (well-typed: must
+# yield consistent IR, packed into one runnable program per parameter list, which C01/C02 also execute) and once per wrong
+# annotation (another type parameter of the function or another concrete type: ill-typed by construction because type
+# parameters are rigid; one program each; must be rejected, and if accepted its IR goes through the judgment as well).
+NAME_VALUES = {"int32": (INT32, Int(4)), "string": (STRING, Str("s")), "bool": (BOOL, Bool(True)), "int64": (INT64, Int(9, "int64", suffix=True))}
+NAME_INST = [STRING, BOOL, INT64]        # the function's 1st / 2nd / 3rd type parameter in main
+FIELD_NAMES = ["first", "second", "third"]
+
+
+def _show(t, e):
+    return {"int32": lambda: show_int(e), "int64": lambda: show_int(e, "int64"), "string": lambda: e, "bool": lambda: Call("bool_to_string", e)}[t["t"]]()
+
+
+def _tlabel(t):
+    return t["n"] if t["t"] in ("param", "adt") and not t.get("as") else tystr(t).replace(" ", "")
+
+
+def _sub(t, m):
+    if t["t"] == "param":
+        return m.get(t["n"], t)
+    if t["t"] == "adt":
+        return TAdt(t["n"], *[_sub(x, m) for x in t["as"]])
+    return t
+
+
+def name_shapes(tier):
+    """(struct name, struct parameters, function parameter lists)"""
+    two = [["A", "B"], ["B", "A"], ["A"], ["B"], ["T", "A"], ["B", "T"], ["T", "U"]]
+    if tier == "quick":
+        return [("Duo", ["A", "B"], two, [INT32])]
+    return [("Duo", ["A", "B"], two + [["A", "T"], ["T", "B"]], [INT32, STRING]),
+            ("Trio", ["A", "B", "C"], [["B", "C", "A"], ["C", "A", "B"], ["A", "C", "B"], ["C", "B"], ["B", "T", "A"], ["C"]], [INT32])]
+
+
+def _assignments(gens, nparams, concrete):
+    import itertools
+    cands = [TParam(g) for g in gens] + concrete
+    for sig in itertools.product(cands, repeat=nparams):
+        if any(t["t"] == "param" for t in sig):
+            yield list(sig)
+
+
+def _wrong(t, gens):
+    return [TParam(g) for g in gens if TParam(g) != t] + [INT32 if t != INT32 else STRING]
+
+
+def _name_fn(p, sname, gens, sig, op, i, ret, fname):
+    """add one function (or one generic impl with one method) using Duo[sig] inside the scope of `gens`; returns (statements
+    of main that call it, declared result type)"""
+    ST = TAdt(sname, *sig)
+    fields = FIELD_NAMES[:len(sig)]
+    wit = [("w_" + g, TParam(g)) for g in gens if not any(t == TParam(g) for t in sig)]
+    inst = {g: NAME_INST[k] for k, g in enumerate(gens)}
+    targs = [inst[g] for g in gens]
+    isig = [_sub(t, inst) for t in sig]
+    val = lambda t: NAME_VALUES[t["t"]][1]
+    wargs = [val(inst[g]) for g, _ in [(w[0][2:], 0) for w in wit]]
+    pv = "p_" + fname
+    mk_p = Let(pv, Struct(TAdt(sname, *isig), [(f, val(t)) for f, t in zip(fields, isig)]), ty=TAdt(sname, *isig))
+    binds = PStruct(sname, [(f, PVar(f"m{k}")) for k, f in enumerate(fields)])
+    if op == "lit":
+        right = ST
+        ret = ret or right
+        p.fn(fname, [(f"x{k}", t) for k, t in enumerate(sig)] + wit, ret, Struct(ST, [(f, Var(f"x{k}")) for k, f in enumerate(fields)]), gens=gens)
+        call = Call(fname, *([val(t) for t in isig] + wargs), targs=targs)
+        iret = _sub(ret, inst)
+        return [Let("r_" + fname, call, ty=iret), println(_show(iret["as"][i], Field(Var("r_" + fname), fields[i])))], ret
+    ret = ret or sig[i]
+    iret = _sub(ret, inst)
+    if op == "meth":
+        key = "inherent#" + tykey(ST).lstrip("%") + "#"
+        p.impl(None, ST, [(fname, [("self", ST)] , ret, Field(Var("self"), fields[i]))], gens=gens)
+        call = Call(key + fname, Var(pv), targs=targs); call["form"] = "method"
+    else:
+        body = {"read": lambda: Field(Var("p"), fields[i]),
+                "match": lambda: Match(Var("p"), [(binds, Var(f"m{i}"))]),
+                "let": lambda: Block([Let(binds, Var("p"))], Var(f"m{i}"))}[op]()
+        p.fn(fname, [("p", ST)] + wit, ret, body, gens=gens)
+        call = Call(fname, *([Var(pv)] + wargs), targs=targs)
+    return [mk_p, Let("r_" + fname, call, ty=iret), println(_show(iret, Var("r_" + fname)))], ret
+
+
+def names_cases(tier):
+    out = []
+    for sname, sparams, glists, concrete in name_shapes(tier):
+        fields = FIELD_NAMES[:len(sparams)]
+
+        def fresh(name):
+            p = Program(name)
+            p.struct(sname, [(f, TParam(a)) for f, a in zip(fields, sparams)], gens=sparams)
+            return p
+        for gens in glists:
+            glabel = ".".join(gens)
+            sigs = list(_assignments(gens, len(sparams), concrete))
+            nparts = (len(sigs) + 11) // 12            # at most 12 argument lists (x 4 uses x fields) per runnable program
+            packed = None
+            for si, sig in enumerate(sigs):
+                if si % 12 == 0:
+                    part = f"_part{si // 12}" if nparts > 1 else ""
+                    packed = fresh(f"c03_names_{sname}_{'_'.join(gens)}{part}")
+                    pstmts, fn_idents = [], {}
+                    out.append({"prog": packed, "family": "c03", "ident": f"c03:type-parameter-names:{sname}:{glabel}{part.replace('_', ':')}", "welltyped": True,
+                                "runnable": True, "fn_idents": fn_idents, "main_stmts": pstmts})
+                slabel = ".".join(_tlabel(t) for t in sig)
+                sid = "_".join(_tlabel(t) for t in sig)
+                sites = [(op, i) for op in ("read", "match", "let", "lit") for i in range(len(sig))]
+                all_used = all(any(t == TParam(g) for t in sig) for g in gens)
+                for op, i in sites:
+                    fname = f"{op}{i}_{sid}"
+                    st, _ = _name_fn(packed, sname, gens, sig, op, i, None, fname)
+                    pstmts += st
+                    fn_idents[fname] = f"{slabel}:{op}-{fields[i]}"
+                if all_used:
+                    sites = sites + [("meth", i) for i in range(len(sig))]
+                    # a generic impl whose parameters reuse the names: a program of its own (one impl block per type)
+                    q = fresh(f"c03_names_{sname}_{'_'.join(gens)}_impl_{sid}")
+                    qst = []
+                    st, _ = _name_fn(q, sname, gens, sig, "meth", 0, None, "get0")
+                    qst += st
+                    q.impls[-1] = (None, q.impls[-1][1], [(f"get{i}", [("self", TAdt(sname, *sig))], sig[i], Field(Var("self"), fields[i])) for i in range(len(sig))], list(gens))
+                    for i in range(1, len(sig)):
+                        key = "inherent#" + tykey(TAdt(sname, *sig)).lstrip("%") + "#"
+                        inst = {g: NAME_INST[k] for k, g in enumerate(gens)}
+                        c = Call(key + f"get{i}", Var("p_get0"), targs=[inst[g] for g in gens]); c["form"] = "method"
+                        qst.append(println(_show(_sub(sig[i], inst), c)))
+                    q.fn("main", [], UNIT, Block(qst, Unit))
+                    out.append({"prog": q, "family": "c03-names", "ident": f"c03:type-parameter-names:{sname}:{glabel}:{slabel}:impl", "welltyped": True,
+                                "fn_idents": {f"get{i}": f"meth-{fields[i]}" for i in range(len(sig))}})
+                # ---- the ill-typed variants: one wrong annotation per program
+                for op, i in sites:
+                    right = sig[i]
+                    for k, w in enumerate(_wrong(right, gens)):
+                        if tier == "quick" and op != "read" and k != (i + len(sid)) % len(_wrong(right, gens)):
+                            continue            # quick: every wrong annotation for reads, one (varying) for the other uses
+                        ret = w if op != "lit" else TAdt(sname, *[w if j == i else t for j, t in enumerate(sig)])
+                        q = fresh(f"c03_names_{sname}_{'_'.join(gens)}_{op}{i}_{sid}_as_{_tlabel(w)}")
+                        st, _ = _name_fn(q, sname, gens, sig, op, i, ret, "f")
+                        q.fn("main", [], UNIT, Block(st, Unit))
+                        out.append({"prog": q, "family": "c03-names", "welltyped": False,
+                                    "ident": f"c03:type-parameter-names:{sname}:{glabel}:{slabel}:{op}-{fields[i]}:annotated-{_tlabel(w)}-is-{_tlabel(right)}"})
+    for c in out:
+        if "main_stmts" in c:
+            c["prog"].fn("main", [], UNIT, Block(c.pop("main_stmts"), Unit))
     return out
